@@ -1,14 +1,28 @@
 ----------------------------- MODULE MC_Positions -----------------------------
+(* Enumerates the programs of Positions.tla.  MODE (environment) = "flat" (default): construct x position, one nesting  *)
+(* level; MODE = "deep": statement position [ expression position [ wrapper [ expression construct ] ] ], of which only  *)
+(* the residue class OFFSET modulo STRIDE is rendered (sampling inside the specification).                               *)
 EXTENDS Positions, Json, IOUtils
-VARIABLES kind, pi, ci
-Init ==
-  \/ kind = "expr" /\ pi \in 1..Len(ExprPositions) /\ ci \in 1..Len(ExprConstructs)
-  \/ kind = "stmt" /\ pi \in 1..Len(StmtPositions) /\ ci \in 1..Len(StmtConstructs)
-  \/ kind = "expr-in-stmt" /\ pi \in 1..Len(StmtPositions) /\ ci \in 1..Len(ExprConstructs)
-Next == UNCHANGED <<kind, pi, ci>>
+Mode == IF "MODE" \in DOMAIN IOEnv THEN IOEnv.MODE ELSE "flat"
+Stride == IF "STRIDE" \in DOMAIN IOEnv THEN atoi(IOEnv.STRIDE) ELSE 1
+Offset == IF "OFFSET" \in DOMAIN IOEnv THEN atoi(IOEnv.OFFSET) ELSE 0
+VARIABLES kind, pi, ci, si, wi
+InitFlat ==
+  /\ si = 0 /\ wi = 0
+  /\ \/ kind = "expr" /\ pi \in 1..Len(ExprPositions) /\ ci \in 1..Len(ExprConstructs)
+     \/ kind = "stmt" /\ pi \in 1..Len(StmtPositions) /\ ci \in 1..Len(StmtConstructs)
+     \/ kind = "expr-in-stmt" /\ pi \in 1..Len(StmtPositions) /\ ci \in 1..Len(ExprConstructs)
+InitDeep ==
+  /\ kind = "deep"
+  /\ si \in 1..Len(StmtPositions) /\ pi \in 1..Len(ExprPositions) /\ wi \in 1..Len(Wrappers) /\ ci \in 1..Len(ExprConstructs)
+  /\ (si * 7919 + pi * 104729 + wi * 1299709 + ci * 15485863) % Stride = Offset % Stride
+  /\ (IsReturnPos(ExprPositions[pi]) => si = 1)          \* a `return` ends its block: only at the top level
+Init == IF Mode = "deep" THEN InitDeep ELSE InitFlat
+Next == UNCHANGED <<kind, pi, ci, si, wi>>
 Construct == IF kind = "stmt" THEN StmtConstructs[ci][1] ELSE ExprConstructs[ci][1]
 Src == IF kind = "expr" THEN ExprCase(ExprPositions[pi], ExprConstructs[ci][2])
        ELSE IF kind = "stmt" THEN StmtCase(StmtPositions[pi], StmtConstructs[ci][2])
+       ELSE IF kind = "deep" THEN DeepCase(StmtPositions[si], ExprPositions[pi], Wrappers[wi], ExprConstructs[ci][2])
        ELSE ExprInStmtCase(StmtPositions[pi], ExprConstructs[ci][2])
-Emit == PrintT("CASE " \o ToJson([kind |-> kind, position |-> pi, construct_index |-> ci, construct |-> Construct, src |-> Src]))
+Emit == PrintT("CASE " \o ToJson([kind |-> kind, position |-> pi, construct_index |-> ci, construct |-> Construct, src |-> Src, stmt_position |-> si, wrapper |-> wi]))
 =============================================================================
